@@ -162,7 +162,7 @@ def acl_cases(tier, maxlen=None):
 
 
 def main(chk):
-    chk.prove(["c_helpers", "c_shadow"])
+    chk.prove(["c_helpers", "c_shadow", "c_option"])
     C03.attach_replays()
     chk.replay_refuted()
     chk.lemmas(C03.lemmas())
